@@ -219,10 +219,40 @@ C11Spell(i) ==
   \cup { Cmd("require", i, "", 0, sp, "plain") : sp \in {ModSeq[1], "MA"} }
   \cup { Cmd("bump", i, ModSeq[1], 1, "", "") }
 
+(* ---- Round 3 (C11) begin: alphabets ----------------------------------------
+   C11Cmds3: the forms asx and impx (SessionOps: names that collide between
+   modules, listed symbols the module does not have) and the importer's own
+   definition of the colliding name, `def common = 0`.  C11Entry3: C11Entry
+   and the form impx.
+   C11Spell3: C11Spell plus the first user module named by a string ('ma',
+   'ma.ckl', 'lib/ma', './ma.ckl': all the module ma).
+   C11Two: two interpreters whose module paths name different directories
+   (AltFS11: i2 reads FSOfAlt, i1 the generated graph): where a module comes
+   from belongs to the interpreter, nothing of one loader shows in the other. *)
+C11Cmds3(i) ==
+  C11Cmds(i)
+  \cup { Cmd("require", i, "", 0, m, f) : m \in ModIds, f \in {"impx", "asx"} }
+  \cup { Cmd("def", i, NCommon, 0, "", "") }
+C11Entry3(i) ==
+  C11Entry(i) \cup { Cmd("require", i, "", 0, ModSeq[1], "impx") }
+C11Spell3(i) ==
+  C11Spell(i)
+  \cup { Cmd("require", i, "", 0, SpellOf("str", ModSeq[1]), "plain"),
+         Cmd("require", i, "", 0, SpellOf("ext", ModSeq[1]), "as"),
+         Cmd("require", i, "", 0, SpellOf("dir", ModSeq[1]), "as"),
+         Cmd("require", i, "", 0, SpellOf("dir", ModSeq[1]), "imp"),
+         Cmd("require", i, "", 0, SpellOf("dot", ModSeq[1]), "unq") }
+C11Two(i) ==
+  { Cmd("require", i, "", 0, m, f) : m \in ModIds, f \in {"plain", "unq", "impx"} }
+  \cup { Cmd("bump", i, n, 1, "", "") : n \in UNION {{m, NBump(m)} : m \in ModIds} }
+AltFS11 == ("i2" :> FSOfAlt(ModSeq))
+(* ---- Round 3 (C11) end ---------------------------------------------------- *)
+
 Cmds == UNION {CmdsOf(i) : i \in Interps}
 
-\* sp = the module name as spelled in the require statement
-Act(sp, form) == [id |-> Canon(sp), nm |-> sp, form |-> form, ph |-> "push", pc |-> 0,
+\* sp = the module name as spelled in the require statement (round 3 (C11):
+\* nm = the name it stands for, BindNm: sp itself unless sp is a string)
+Act(sp, form) == [id |-> Canon(sp), nm |-> BindNm(sp), form |-> form, ph |-> "push", pc |-> 0,
                   env |-> NoBind, pushed |-> FALSE]
 
 Idle == [ph |-> "idle", cmd |-> NoCmd, start |-> << >>, act |-> << >>,
@@ -482,6 +512,9 @@ ReqLoadStep ==
                     /\ mods' = [mods EXCEPT ![I][Target(a.env, st)].ctr = @ + 1]
                     /\ ctl' = SetTop([a EXCEPT !.pc = @ + 1])
                     /\ UNCHANGED loads
+               [] st.op = "vals" ->        \* round 3 (C11): one definition per kind of value, and `common`
+                    /\ ctl' = SetTop([a EXCEPT !.pc = @ + 1, !.env = ValsEnv(a.id) @@ @])
+                    /\ UNCHANGED <<loads, mods>>
                [] st.op = "deep" ->        \* round 3: the host's stack is exhausted
                     /\ ctl' = [ctl EXCEPT !.err = Fail("toodeep", "")]
                     /\ UNCHANGED <<loads, mods>>
@@ -515,20 +548,23 @@ Underscore(n) == IsPrivate(FSI(I), n)
 Bindings(form, d, nm, mv) ==
   CASE form = "unq" -> [n \in {s \in DOMAIN mv : ~Underscore(s)} |-> mv[n]]
     [] form \in ImpForms ->
-         LET hit == {p \in ImpListOf(form, d) : p[1] \in DOMAIN mv /\ ~Underscore(p[1])}
-         IN [b \in {p[2] : p \in hit} |-> mv[(CHOOSE p \in hit : p[2] = b)[1]]]
+         \* round 3 (C11): a listed symbol is looked up in ImportScope(mv), the module's own scope
+         LET sc  == ImportScope(mv)
+             hit == {p \in ImpListOf(form, d) : p[1] \in DOMAIN sc /\ ~Underscore(p[1])}
+         IN [b \in {p[2] : p \in hit} |-> sc[(CHOOSE p \in hit : p[2] = b)[1]]]
     [] form = "as"  -> (Alias(nm) :> ModV(d))
+    [] form = "asx" -> (NShared :> ModV(d))          \* round 3 (C11)
     [] OTHER        -> (nm :> ModV(d))
 
 ReqBind(e) ==
   /\ Stepping("bind")
   /\ LET b == Bindings(Top.form, Top.id, Top.nm, mods[I][Top.id].vars) IN
      IF Depth = 1
-     THEN /\ sess' = [sess EXCEPT ![I] = b @@ @]
+     THEN /\ sess' = [sess EXCEPT ![I] = Rebind(b, @) (* round 3 (C11): b @@ @, the new bindings win *)]
           /\ UNCHANGED <<mods, mstack, loads, gen, nreq, fs, cal>>
           /\ Finish(e, ctl.cmd, Val("null", 0), ctl.start, ctl.ph = "rerun")
      ELSE /\ ctl' = [ctl EXCEPT !.act = [k \in 1..(Depth - 1) |->
-                         IF k = Depth - 1 THEN [ctl.act[k] EXCEPT !.env = b @@ @]
+                         IF k = Depth - 1 THEN [ctl.act[k] EXCEPT !.env = Rebind(b, @)]
                          ELSE ctl.act[k]]]
           /\ UNCHANGED <<sess, mods, mstack, loads, gen, nreq, fs, cal>>
 
@@ -590,6 +626,10 @@ ASSUME Mode = "c10" => Emit(TRUE, "FSDEF", [g |-> << >>,
 ASSUME Mode = "c10" => Emit(TRUE, "FSRAW", [raw |-> Unreadable,
           alt |-> [i \in DOMAIN AltFS |-> [m \in DOMAIN AltFS[i] |->
                      [syn |-> AltFS[i][m].syn, body |-> AltFS[i][m].body]]]])
+\* round 3 (C11): the same for the generated file systems (every FSDEF of the
+\* run goes with these directories of single interpreters)
+ASSUME Mode = "c11" => Emit(TRUE, "FSALT", [alt |-> [i \in DOMAIN AltFS |-> [m \in DOMAIN AltFS[i] |->
+                     [syn |-> AltFS[i][m].syn, body |-> AltFS[i][m].body]]]])
 
 -----------------------------------------------------------------------------
 Init ==
@@ -627,6 +667,11 @@ RenderSym(i, x) ==
     [] kd = "st"   -> [k |-> "list", r |-> Ctr(i, x.id)]
     [] kd = "def"  -> [k |-> "int",  r |-> 7]
     [] kd = "def8" -> [k |-> "int",  r |-> 8]          \* round 3
+    [] kd = "vals" ->                                  \* round 3 (C11): a definition of the statement `vals`
+         LET body == FSI(i)[x.id].body
+             st == body[CHOOSE j \in DOMAIN body : body[j].op = "vals"]
+             vk == ValKindOf(x.id, x.n)
+         IN [k |-> IF vk \in {"common", "zero"} THEN "int" ELSE vk, r |-> ValR(vk, x.id, st.id)]
     [] OTHER (* rdr *) ->
          LET st == FSI(i)[x.id].body[SymStmt(FSI(i), x.id, x.n)]
          IN [k |-> "call", r |-> Ctr(i, Target(mods[i][x.id].vars, st))]
@@ -740,6 +785,17 @@ ModulesFromOwnDirectory ==
      /\ m \in DOMAIN FSI(i)
      /\ \A n \in DOMAIN mods[i][m].vars :
           (mods[i][m].vars[n].k = "sym" /\ mods[i][m].vars[n].id = m /\ n \notin DOMAIN StdEnv(m, NoBind))
+             => \E k \in DOMAIN FSI(i)[m].body : FSI(i)[m].body[k].n = n
+
+\* round 3 (C11): the same for generated modules (whose statement `vals`
+\* defines the names ValNames): with two module directories, what the cache
+\* of interpreter i holds was defined by the file of ITS directory
+OwnDirectory11 ==
+  \A i \in Interps : \A m \in DOMAIN mods[i] \ Bundled :
+     /\ m \in DOMAIN FSI(i)
+     /\ \A n \in DOMAIN mods[i][m].vars :
+          (/\ mods[i][m].vars[n].k = "sym" /\ mods[i][m].vars[n].id = m
+           /\ n \notin DOMAIN StdEnv(m, NoBind) /\ n \notin ValNames(m))
              => \E k \in DOMAIN FSI(i)[m].body : FSI(i)[m].body[k].n = n
 
 \* C11: every module value refers to the one cached instance
